@@ -52,7 +52,7 @@ def gen_values(rnd, key_is_color):
         d = rnd.choice([1, 2, 3, 3, 6, 6])
         digits = ''.join(rnd.choice('0123456789abcdef') for _ in range(d))
         if d == 6 and rnd.random() < .4: digits = ''.join(ch * 2 for ch in digits[:3])
-        alpha = rnd.choice([None, None, None, None, '.5', '.25', '.1', '.75', '.9', '.0', '.00', '.05', '.125', '.005', '.9999', '.0625', '.333'])
+        alpha = rnd.choice([None, None, None, None, '.5', '.25', '.1', '.75', '.9', '.0', '.00', '.05', '.125', '.005', '.9999', '.0625', '.333', '.1234567', '.00001', '.12345', '.123456789'])
         # hex digits may be typed in either letter case (the value is the same colour)
         typed = digits if rnd.random() < .65 else (digits.upper() if rnd.random() < .5 else ''.join(ch.upper() if rnd.random() < .5 else ch for ch in digits))
         return '#' + typed + (alpha or ''), [('color', digits, alpha)]
@@ -123,7 +123,7 @@ def render_color(digits, alpha, opt):
     if alpha is not None:
         a = F(alpha if not alpha.startswith('.') else '0' + alpha)
         if a == 0 and r == g == b == 0: return 'transparent'         # rgba(0, 0, 0, 0): the same colour under its keyword
-        if a != 1: return 'rgba(%d, %d, %d, %s)' % (r, g, b, ('%.4f' % float(a)).rstrip('0').rstrip('.'))
+        if a != 1: return 'rgba(%d, %d, %d, %s)' % (r, g, b, ('%.8f' % float(a)).rstrip('0').rstrip('.'))
     if opt.get('stylesheet.shortHex', True) and all(x % 17 == 0 for x in (r, g, b)): return '#' + h[0] + h[2] + h[4]
     return '#' + h
 
@@ -182,7 +182,7 @@ def expand_cases_C06(tier, seed):
     out = []
     keys = list(stylesheet_snippets)
     for k in keys:
-        for sy in (['css'] if tier == 'quick' else ['css', 'scss', 'sass', 'less', 'stylus']) + [rnd.choice(['scss', 'sass', 'less', 'stylus'])]:
+        for sy in (['css'] if tier == 'quick' else ['css', 'scss', 'sass', 'less', 'stylus']) + [rnd.choice(['scss', 'sass', 'less', 'stylus'])] + ([rnd.choice(['postcss', 'styl', 'pcss'])] if rnd.random() < .15 else []):
             for scope in (None, '@@global', '@@section', '@@property'):
                 if tier == 'quick' and scope in ('@@global',) and rnd.random() < .7: continue
                 c = {'syntax': sy}
@@ -209,7 +209,7 @@ def expand_cases_C06(tier, seed):
         body = rnd.choice(['my-prop:${1:v}', 'other:a|b', 'raw ${1} text', 'foo-bar', 'grid-x:auto|none'])
         out.append({'s': k, 'c': {'snippets': {k: body}}, 'g': 'user', 'key': k, 'body': body})
         # the same user snippet supplied through the global configuration (for the type, or for the syntax)
-        body2 = rnd.choice(['my-prop:${1:v}', 'other:a|b', 'raw ${1} text', 'grid-x:auto|none', 'grid-q:image-set(url(${1:file}) 1x)|none', 'w-x:f(g(h(${1:deep})))|auto', 'width:100%;height:100%', 'margin:0 auto;padding:0 ${1}'])
+        body2 = rnd.choice(['raw ${color} and ${gap}px', 'my-prop:${1:v}', 'other:a|b', 'raw ${1} text', 'grid-x:auto|none', 'grid-q:image-set(url(${1:file}) 1x)|none', 'w-x:f(g(h(${1:deep})))|auto', 'width:100%;height:100%', 'margin:0 auto;padding:0 ${1}'])
         layer = rnd.choice(['stylesheet', 'css'])
         out.append({'s': k, 'c': {}, 'gc': {layer: {'snippets': {k: body2}}}, 'g': 'user', 'key': k, 'body': body2})
         # a raw snippet may hold several declarations on one line
@@ -304,6 +304,14 @@ def run(case, prop):
         if 'gc' not in case:
             if not SECTION_CACHE: outcome('p10', dict(mk({'context': {'name': '@@section'}}), cache=SECTION_CACHE)); SECTION_CACHE.setdefault('~used~', 1) if False else None
             o2 = outcome(ab, dict(mk(case['c']), cache=SECTION_CACHE))
+            # a text callback that uses the library itself (another stylesheet expansion with other punctuation) while this one is being written
+            def reentrant(text, **kw):
+                try: outcome('m10+c#f', mk({'syntax': 'sass', 'options': {'stylesheet.between': ' = ', 'stylesheet.after': '', 'stylesheet.shortHex': False}}))
+                except Exception: pass
+                return text
+            c4 = mk(case['c']); c4['options']['output.text'] = reentrant
+            o4 = outcome(ab, c4)
+            if o4 != o: viol = viol + ['(with an output.text callback that calls expand itself) ' + v for v in oracle_C05(case, o4)]
             if o2 != o: viol = viol + ['(with a cache first used under the @@section scope) ' + v for v in oracle_C05(case, o2)]
     elif prop == 'C06' and 'key' in case:
         viol = oracle_C06(case, o)
